@@ -468,3 +468,49 @@ func TestTimestampClock(t *testing.T) {
 		rec.ReportSeq(t, "clock", c, func() *vk.Violation { return checkClock(c) })
 	})
 }
+
+// TestCollidingAccounts: pairs of different accounts of equal length that collide under a common 32-bit hash
+// (birthday search, vk.CollidingPairs), logging in one right after the other - both orders, all three
+// exchanges: whatever the library remembers about short strings it has decoded must be keyed by the string.
+func TestCollidingAccounts(t *testing.T) {
+	if rec.Env().Shard != 0 {
+		return
+	}
+	const alnum = "0123456789ABCDEFGHIJKLMNOPQRSTUVWXYZabcdefghijklmnopqrstuvwxyz"
+	sm := vk.SplitMix(uint64(rec.Env().Seed)*17 + 3)
+	var pairs [][2]string
+	for _, n := range []int{6, 8} {
+		n := n
+		pairs = append(pairs, vk.CollidingPairs(func(i uint64) string {
+			b := make([]byte, n)
+			for k := range b {
+				b[k] = alnum[sm.Intn(len(alnum))]
+			}
+			return string(b)
+		}, 400000)...)
+	}
+	for _, p := range pairs {
+		for _, ex := range []string{"cmpp20", "cmpp30", "smgp30"} {
+			if ex != "smgp30" && len(p[0]) > 6 {
+				continue
+			}
+			for _, ord := range [][2]string{{p[0], p[1]}, {p[1], p[0]}} {
+				first := Case{Exchange: ex, Account: vk.Hex([]byte(ord[0])), Secret: vk.Hex([]byte("secret")), Timestamp: 1021080510, Status: 0}
+				then := first
+				then.Account = vk.Hex([]byte(ord[1]))
+				rec.Eval()
+				rec.NonTrivialConstructed(1)
+				rec.Class("accounts_colliding_under_a_32_bit_hash")
+				if v := check(first); v != nil {
+					rec.Report(t, "auth", v)
+					continue
+				}
+				if v := check(then); v != nil {
+					v.Key = "after-colliding-account/" + v.Key
+					v.Case = vk.SeqCase{Kind: "auth", First: first, Then: then}
+					rec.Report(t, "sequence", v)
+				}
+			}
+		}
+	}
+}
